@@ -10,6 +10,8 @@
 
 struct Pt { int64_t x; int64_t y; };
 static var Pt;
+enum { NBLOB = 40 };
+static var BLOB[NBLOB + 1];      /* plain types of 1..40 bytes, no instances */
 
 /* containers whose elements are used through interior pointers must stay referenced from the stack:
    the collector does not treat an interior pointer as a reference (documented limitation) */
@@ -277,6 +279,72 @@ static void map_histories(vh_rng* r) {
   }
 }
 
+
+/* ---------- maps whose key and value types have different sizes, reached through different histories ----------
+** The final bindings are the same; one map gets them directly, one through a superset followed by removals (for a
+** Tree these remove leaves, one-child nodes and two-children nodes alike), one with every value overwritten once.
+** All must be eq with equal hashes, hold the stored bytes, and so must their copies. */
+static void obj_bytes(unsigned char* out, size_t size, int index, unsigned salt) {
+  memset(out, 0, size);
+  out[0] = (unsigned char)index;
+  for (size_t i = 1; i < size; i++) { out[i] = (unsigned char)(index * 11 + (int)i * 7 + (int)salt); }
+}
+static var stack_blob(size_t size, int index, unsigned salt, char* buf) {
+  var o = header_init(buf, BLOB[size], AllocStack);
+  obj_bytes(o, size, index, salt);
+  return o;
+}
+static void sized_map_histories(vh_rng* r) {
+  static const size_t SZ[] = { 1, 3, 8, 12, 24, 40 };
+  size_t ks = SZ[vh_below(r, 6)], vs = SZ[vh_below(r, 6)];
+  int is_tree = (int)vh_below(r, 2);
+  int n = 1 + (int)vh_below(r, 40), extra = 1 + (int)vh_below(r, 40);
+  if (n + extra > 250) { extra = 250 - n; }
+  char kb[sizeof(struct Header) + 48], vb[sizeof(struct Header) + 48], d[160];
+  const char* dom = is_tree ? "Tree" : "Table";
+  var MK = is_tree ? Tree : Table;
+  var m[3];
+  /* final keys: even indices 0,2,4,..; extras: the odd ones in between (so that removals hit inner nodes) */
+  for (int h = 0; h < 3; h++) {
+    m[h] = new_with(MK, tuple(BLOB[ks], BLOB[vs]));
+    if (h == 0) { for (int i = 0; i < n; i++) { set(m[h], stack_blob(ks, 2 * i, 3, kb), stack_blob(vs, 2 * i, 9, vb)); } }
+    else if (h == 1) {
+      int total = 2 * n > n + extra ? n + extra : 2 * n;
+      for (int j = 0; j < total; j++) { int i = total % 7 ? (j * 7 + 3) % total : j; set(m[h], stack_blob(ks, i, 3, kb), stack_blob(vs, i, 9, vb)); }
+      for (int i = 0; i < total; i++) { if (i % 2 == 1 || i >= 2 * n) { rem(m[h], stack_blob(ks, i, 3, kb)); } }
+      for (int i = 0; i < n; i++) { if (2 * i >= total) { set(m[h], stack_blob(ks, 2 * i, 3, kb), stack_blob(vs, 2 * i, 9, vb)); } }
+    } else {
+      for (int i = n - 1; i >= 0; i--) { set(m[h], stack_blob(ks, 2 * i, 3, kb), stack_blob(vs, 2 * i + 1, 77, vb)); }
+      for (int i = 0; i < n; i++) { set(m[h], stack_blob(ks, 2 * i, 3, kb), stack_blob(vs, 2 * i, 9, vb)); }
+    }
+  }
+  for (int a = 0; a < 3; a++) { for (int b = a + 1; b < 3; b++) {
+    snprintf(d, sizeof d, "%s<%zu-byte,%zu-byte> of %d bindings, histories %d and %d", dom, ks, vs, n, a, b);
+    equal_pair(dom, m[a], m[b], d);
+  } }
+  for (int h = 0; h < 3; h++) {
+    unsigned char want[48];
+    vh_evals(2);
+    if (len(m[h]) != (size_t)n) { vh_violation(K(dom, "history-changed-the-number-of-bindings"), "%s<%zu-byte,%zu-byte> history %d: len %zu, expected %d", dom, ks, vs, h, len(m[h]), n); continue; }
+    for (int i = 0; i < n; i++) {
+      obj_bytes(want, vs, 2 * i, 9);
+      var got = get(m[h], stack_blob(ks, 2 * i, 3, kb));
+      if (memcmp(got, want, vs) != 0) { vh_violation(K(dom, "value-changed-by-the-history-of-other-keys"), "%s<%zu-byte,%zu-byte> history %d: the value under key %d is not the one stored", dom, ks, vs, h, 2 * i); break; }
+    }
+    var c = copy(m[h]);
+    snprintf(d, sizeof d, "copy of %s<%zu-byte,%zu-byte> (history %d)", dom, ks, vs, h);
+    equal_pair(dom, c, m[h], d);
+    equal_pair(dom, c, m[0], d);
+    var a = new_with(MK, tuple(BLOB[vs], BLOB[ks]));
+    assign(a, m[h]);
+    snprintf(d, sizeof d, "assign of %s<%zu-byte,%zu-byte> (history %d)", dom, ks, vs, h);
+    equal_pair(dom, a, m[0], d);
+    del(c); del(a);
+  }
+  if (vs > ks) { vh_count("sized_map_histories_value_wider_than_key"); }
+  vh_count("sized_map_history_groups");
+}
+
 /* ---------- hash_data ---------- */
 
 static void hash_data_alignment(vh_rng* r) {
@@ -311,8 +379,6 @@ static void hash_data_alignment(vh_rng* r) {
 /* ---------- plain user types of every size 1..40: no instances at all, so eq / hash / copy / assign / swap fall back
 ** to the byte-wise defaults over exactly size(type) bytes -- sizes that are not a multiple of 8 included ---------- */
 
-enum { NBLOB = 40 };
-static var BLOB[NBLOB + 1];
 
 static void fill_blob(vh_rng* r, unsigned char* p, size_t n) { for (size_t i = 0; i < n; i++) { p[i] = (unsigned char)vh_below(r, 256); } }
 
@@ -370,6 +436,7 @@ static void case_random(vh_rng* r, long index) {
   blob_values(r); blob_values(r);
   seq_histories(r);
   map_histories(r);
+  sized_map_histories(r);
   hash_data_alignment(r);
   vh_op("scalars+sequences+maps+hash_data, first draw %" PRIu64, vh_next(r));
   vh_nontrivial();
